@@ -581,7 +581,22 @@ def transport_send(I, selfv, args, kw):
         dropped = FreshBool('sendDropsConn')
         conn = ctx.cell(so.get('connectedNodes'))
         ctx.setcell(so.get('connectedNodes'), NSet([And(b, Not(And(dropped, Eq(node.idx, i)))) for i, b in enumerate(conn.bits)]))
+        if 'transmitting' in ctx.ghost and I.hooks.get('disconnect_cancels_transfer', True):
+            # the disconnect reaches SyncObj through __onNodeDisconnected, whose contract (unit node-notifications, clause
+            # O9.7.disconnect-cancels-transfer) includes the cancellation of the snapshot transfer to that node
+            ctx.ghost['transmitting'] = [And(b, Not(And(dropped, Eq(node.idx, i)))) for i, b in enumerate(ctx.ghost['transmitting'])]
     return FreshBool('sendOk')
+
+
+def cancel_transmission(I, selfv, args, kw):
+    """Serializer.cancelTransmisstion(id) (contract proved in unit serializer.cancelTransmisstion): the transfer state of id is
+    dropped, every other transfer is untouched; the call is recorded"""
+    ctx = I.ctx
+    node = I.unwrap(args[0], 'cancel-target')
+    ctx.ghost['cancelled'] = ctx.glist('cancelled') + [node]
+    if 'transmitting' in ctx.ghost and isinstance(node, NodeV):
+        ctx.ghost['transmitting'] = [And(b, Not(Eq(node.idx, i))) for i, b in enumerate(ctx.ghost['transmitting'])]
+    return None
 
 
 def user_callback(I, f, args, kw):
@@ -669,6 +684,7 @@ EXTERNALS = {
 REGISTRY_BASE = {
     'Transport.send': transport_send,
     'PipeNotifier.notify': lambda I, s, a, k: None,
+    'Serializer.cancelTransmisstion': cancel_transmission,
 }
 
 HOOKS_BASE = {
